@@ -59,12 +59,15 @@ theorem run_safe (sys : Sys A S O G W) (hs : sys.Sound) (a : A) :
           rw [run_cons_ok sys a _ r s hstep]
           have : (step sys a s (.guard g)).1 = s := by simp [step]
           rw [this]
-          have inv' : ∀ g' ∈ g :: seen, sys.check a g' = none := by
+          have inv' : ∀ g' ∈ g :: (sys.implies g ++ seen), sys.check a g' = none := by
             intro g' hg'
             cases List.mem_cons.mp hg' with
             | inl h => rw [h]; exact hc
-            | inr h => exact inv g' h
-          exact (ih (g :: seen) false s hsafe inv').2 rfl
+            | inr h =>
+              cases List.mem_append.mp h with
+              | inl h1 => exact hs.implies_ok a g g' hc h1
+              | inr h2 => exact inv g' h2
+          exact (ih (g :: (sys.implies g ++ seen)) false s hsafe inv').2 rfl
         | some e' =>
           have hstep : (step sys a s (.guard g)).2 = some e' := by simp [step, hc]
           rw [run_cons_err sys a _ r s e' hstep]
